@@ -48,6 +48,8 @@ def check(case_):
     from flamapy.metamodels.fm_metamodel.transformations import ClaferWriter
     out = []
     case = case_["model"] if "selections" in case_ else case_
+    from vf.props.c10 import _poisoned
+    lib(lambda: ClaferWriter(None, build.build(_poisoned(case))).transform())     # a failing export first (see C10)
     fm = build.build(case)
     text = lib(lambda: ClaferWriter(None, fm).transform())
     if isinstance(text, Raised):
